@@ -1,4 +1,5 @@
 import Driver.C04
+import Driver.C08T
 import Driver.C16Incl
 import Driver.C12Env
 import Driver.C09T
@@ -57,6 +58,7 @@ partial def loop (h : IO.FS.Stream) (out : IO.FS.Stream) (f : String → String)
   loop h out f
 
 def modes : List (String × (String → String)) := [
+  ("c08t", C08T.handle),
   ("c07-filter", C07.handleFilter),
   ("c16incl", C16Incl.handle),
   ("c12env", C12Env.handle),
